@@ -1,0 +1,47 @@
+//go:build verif
+
+package canary
+
+// Contracts read by the verification engine in /verif (govc). Comment-only file.
+//
+// The ghost API log records every client call: logverb(k), logobj(k) (the object passed), logsent(k) (a snapshot of the
+// object as it was sent by a write), logkeyns(k)/logkeyname(k) (the key of a Get).
+//
+//@ import v1 "github.com/DataDog/extendeddaemonset/api/v1alpha1"
+//@
+//@ func (*pauseOptions).run
+//@   logs
+//@   requires o != nil && o.client != nil
+//@   modifies nothing
+//@   ensures [C19] reads-then-at-most-one-patch: forall k int :: lognew(k) ==> (k == old(loglen()) && logverb(k) == "Get") || (k == old(loglen()) + 1 && logverb(k) == "Patch")
+//@   ensures [C19] fetches-the-named-object: loglen() > old(loglen()) && logkeyns(old(loglen())) == o.userNamespace && logkeyname(old(loglen())) == o.userExtendedDaemonSetName
+//@   ensures [C19] refuses-without-an-active-canary: forall k int :: lognew(k) && logverb(k) == "Patch" ==> cast(logobj(k-1), "*v1.ExtendedDaemonSet").Spec.Strategy.Canary != nil && cast(logobj(k-1), "*v1.ExtendedDaemonSet").Status.Canary != nil
+//@   ensures [C19] patches-the-fetched-object: forall k int :: lognew(k) && logverb(k) == "Patch" ==> cast(logsent(k), "*v1.ExtendedDaemonSet").ObjectMeta.Name == cast(logobj(k-1), "*v1.ExtendedDaemonSet").ObjectMeta.Name && cast(logsent(k), "*v1.ExtendedDaemonSet").ObjectMeta.Namespace == cast(logobj(k-1), "*v1.ExtendedDaemonSet").ObjectMeta.Namespace
+//@   ensures [C19] labels-untouched: forall k int :: lognew(k) && logverb(k) == "Patch" ==> forall a string :: ((a in cast(logsent(k), "*v1.ExtendedDaemonSet").ObjectMeta.Labels) <==> (a in cast(logobj(k-1), "*v1.ExtendedDaemonSet").ObjectMeta.Labels)) && cast(logsent(k), "*v1.ExtendedDaemonSet").ObjectMeta.Labels[a] == cast(logobj(k-1), "*v1.ExtendedDaemonSet").ObjectMeta.Labels[a]
+//@   ensures [C19] changes-only-the-two-pause-annotations: forall k int :: lognew(k) && logverb(k) == "Patch" ==> scalareq(*cast(logsent(k), "*v1.ExtendedDaemonSet"), *cast(logobj(k-1), "*v1.ExtendedDaemonSet")) && (forall a string :: a != "extendeddaemonset.datadoghq.com/canary-paused" && a != "extendeddaemonset.datadoghq.com/canary-unpaused" ==> ((a in cast(logsent(k), "*v1.ExtendedDaemonSet").ObjectMeta.Annotations) <==> (a in cast(logobj(k-1), "*v1.ExtendedDaemonSet").ObjectMeta.Annotations)) && cast(logsent(k), "*v1.ExtendedDaemonSet").ObjectMeta.Annotations[a] == cast(logobj(k-1), "*v1.ExtendedDaemonSet").ObjectMeta.Annotations[a])
+//@   ensures [C19] sets-paused-and-unpaused-as-asked: forall k int :: lognew(k) && logverb(k) == "Patch" ==> cast(logsent(k), "*v1.ExtendedDaemonSet").ObjectMeta.Annotations["extendeddaemonset.datadoghq.com/canary-paused"] == ite(o.pauseStatus, "true", "false") && cast(logsent(k), "*v1.ExtendedDaemonSet").ObjectMeta.Annotations["extendeddaemonset.datadoghq.com/canary-unpaused"] == ite(o.pauseStatus, "false", "true")
+//@   ensures [C19] refuses-when-already-in-the-asked-state: forall k int :: lognew(k) && logverb(k) == "Patch" ==> !(("extendeddaemonset.datadoghq.com/canary-paused" in cast(logobj(k-1), "*v1.ExtendedDaemonSet").ObjectMeta.Annotations) && cast(logobj(k-1), "*v1.ExtendedDaemonSet").ObjectMeta.Annotations["extendeddaemonset.datadoghq.com/canary-paused"] == ite(o.pauseStatus, "true", "false"))
+//@
+//@ func (*validateOptions).run
+//@   logs
+//@   requires o != nil && o.client != nil
+//@   modifies nothing
+//@   ensures [C19] reads-then-at-most-one-patch: forall k int :: lognew(k) ==> (k == old(loglen()) && logverb(k) == "Get") || (k == old(loglen()) + 1 && logverb(k) == "Patch")
+//@   ensures [C19] fetches-the-named-object: loglen() > old(loglen()) && logkeyns(old(loglen())) == o.userNamespace && logkeyname(old(loglen())) == o.userExtendedDaemonSetName
+//@   ensures [C19] refuses-without-an-active-canary: forall k int :: lognew(k) && logverb(k) == "Patch" ==> cast(logobj(k-1), "*v1.ExtendedDaemonSet").Status.Canary != nil
+//@   ensures [C19] patches-the-fetched-object: forall k int :: lognew(k) && logverb(k) == "Patch" ==> cast(logsent(k), "*v1.ExtendedDaemonSet").ObjectMeta.Name == cast(logobj(k-1), "*v1.ExtendedDaemonSet").ObjectMeta.Name && cast(logsent(k), "*v1.ExtendedDaemonSet").ObjectMeta.Namespace == cast(logobj(k-1), "*v1.ExtendedDaemonSet").ObjectMeta.Namespace
+//@   ensures [C19] labels-untouched: forall k int :: lognew(k) && logverb(k) == "Patch" ==> forall a string :: ((a in cast(logsent(k), "*v1.ExtendedDaemonSet").ObjectMeta.Labels) <==> (a in cast(logobj(k-1), "*v1.ExtendedDaemonSet").ObjectMeta.Labels)) && cast(logsent(k), "*v1.ExtendedDaemonSet").ObjectMeta.Labels[a] == cast(logobj(k-1), "*v1.ExtendedDaemonSet").ObjectMeta.Labels[a]
+//@   ensures [C19] changes-only-the-valid-annotation: forall k int :: lognew(k) && logverb(k) == "Patch" ==> scalareq(*cast(logsent(k), "*v1.ExtendedDaemonSet"), *cast(logobj(k-1), "*v1.ExtendedDaemonSet")) && (forall a string :: a != "extendeddaemonset.datadoghq.com/canary-valid" ==> ((a in cast(logsent(k), "*v1.ExtendedDaemonSet").ObjectMeta.Annotations) <==> (a in cast(logobj(k-1), "*v1.ExtendedDaemonSet").ObjectMeta.Annotations)) && cast(logsent(k), "*v1.ExtendedDaemonSet").ObjectMeta.Annotations[a] == cast(logobj(k-1), "*v1.ExtendedDaemonSet").ObjectMeta.Annotations[a])
+//@   ensures [C19] validates-the-replica-set-that-is-the-canary-now: forall k int :: lognew(k) && logverb(k) == "Patch" ==> cast(logsent(k), "*v1.ExtendedDaemonSet").ObjectMeta.Annotations["extendeddaemonset.datadoghq.com/canary-valid"] == cast(logobj(k-1), "*v1.ExtendedDaemonSet").Status.Canary.ReplicaSet
+//@
+//@ func (*failOptions).run
+//@   logs
+//@   requires o != nil && o.client != nil
+//@   modifies nothing
+//@   ensures [C19] two-reads-then-at-most-one-status-update: forall k int :: lognew(k) ==> (k <= old(loglen()) + 1 && logverb(k) == "Get") || (k == old(loglen()) + 2 && logverb(k) == "StatusUpdate")
+//@   ensures [C19] fetches-the-named-object: loglen() > old(loglen()) && logkeyns(old(loglen())) == o.userNamespace && logkeyname(old(loglen())) == o.userExtendedDaemonSetName
+//@   ensures [C19] fetches-the-canary-replica-set: loglen() > old(loglen()) + 1 ==> logkeyns(old(loglen()) + 1) == o.userNamespace && logkeyname(old(loglen()) + 1) == cast(logobj(old(loglen())), "*v1.ExtendedDaemonSet").Status.Canary.ReplicaSet
+//@   ensures [C19] refuses-without-an-active-canary: forall k int :: lognew(k) && logverb(k) == "StatusUpdate" ==> cast(logobj(old(loglen())), "*v1.ExtendedDaemonSet").Spec.Strategy.Canary != nil && cast(logobj(old(loglen())), "*v1.ExtendedDaemonSet").Status.Canary != nil
+//@   ensures [C19] updates-the-fetched-replica-set: forall k int :: lognew(k) && logverb(k) == "StatusUpdate" ==> cast(logsent(k), "*v1.ExtendedDaemonSetReplicaSet").ObjectMeta.Name == cast(logobj(k-1), "*v1.ExtendedDaemonSetReplicaSet").ObjectMeta.Name && cast(logsent(k), "*v1.ExtendedDaemonSetReplicaSet").ObjectMeta.Namespace == cast(logobj(k-1), "*v1.ExtendedDaemonSetReplicaSet").ObjectMeta.Namespace
+//@   ensures [C19] only-appends-a-canary-failed-condition: forall k int :: lognew(k) && logverb(k) == "StatusUpdate" ==> len(cast(logsent(k), "*v1.ExtendedDaemonSetReplicaSet").Status.Conditions) == len(cast(logobj(k-1), "*v1.ExtendedDaemonSetReplicaSet").Status.Conditions) + 1 && cast(logsent(k), "*v1.ExtendedDaemonSetReplicaSet").Status.Conditions[len(cast(logobj(k-1), "*v1.ExtendedDaemonSetReplicaSet").Status.Conditions)].Type == v1.ConditionTypeCanaryFailed && cast(logsent(k), "*v1.ExtendedDaemonSetReplicaSet").Status.Conditions[len(cast(logobj(k-1), "*v1.ExtendedDaemonSetReplicaSet").Status.Conditions)].Status == "True" && (forall i int :: 0 <= i && i < len(cast(logobj(k-1), "*v1.ExtendedDaemonSetReplicaSet").Status.Conditions) ==> cast(logsent(k), "*v1.ExtendedDaemonSetReplicaSet").Status.Conditions[i].Type == cast(logobj(k-1), "*v1.ExtendedDaemonSetReplicaSet").Status.Conditions[i].Type && cast(logsent(k), "*v1.ExtendedDaemonSetReplicaSet").Status.Conditions[i].Status == cast(logobj(k-1), "*v1.ExtendedDaemonSetReplicaSet").Status.Conditions[i].Status && cast(logsent(k), "*v1.ExtendedDaemonSetReplicaSet").Status.Conditions[i].Reason == cast(logobj(k-1), "*v1.ExtendedDaemonSetReplicaSet").Status.Conditions[i].Reason)
+//@   ensures [C19] other-status-fields-and-spec-unchanged: forall k int :: lognew(k) && logverb(k) == "StatusUpdate" ==> cast(logsent(k), "*v1.ExtendedDaemonSetReplicaSet").Status.Status == cast(logobj(k-1), "*v1.ExtendedDaemonSetReplicaSet").Status.Status && cast(logsent(k), "*v1.ExtendedDaemonSetReplicaSet").Status.Desired == cast(logobj(k-1), "*v1.ExtendedDaemonSetReplicaSet").Status.Desired && cast(logsent(k), "*v1.ExtendedDaemonSetReplicaSet").Status.Current == cast(logobj(k-1), "*v1.ExtendedDaemonSetReplicaSet").Status.Current && cast(logsent(k), "*v1.ExtendedDaemonSetReplicaSet").Status.Ready == cast(logobj(k-1), "*v1.ExtendedDaemonSetReplicaSet").Status.Ready && cast(logsent(k), "*v1.ExtendedDaemonSetReplicaSet").Status.Available == cast(logobj(k-1), "*v1.ExtendedDaemonSetReplicaSet").Status.Available && cast(logsent(k), "*v1.ExtendedDaemonSetReplicaSet").Status.IgnoredUnresponsiveNodes == cast(logobj(k-1), "*v1.ExtendedDaemonSetReplicaSet").Status.IgnoredUnresponsiveNodes && cast(logsent(k), "*v1.ExtendedDaemonSetReplicaSet").Spec.TemplateGeneration == cast(logobj(k-1), "*v1.ExtendedDaemonSetReplicaSet").Spec.TemplateGeneration
